@@ -1494,7 +1494,7 @@ def rule_zero_length_is_rest(ctx):
         def vis(nd, st):
             if nd[0] == "if" and nd[1] is not None:
                 c = strip(nd[1])
-                if kind(c) == "bin" and c[1] == "==" and kind(strip(c[2])) == "var" and strip(c[2])[1] == "length" and is_int(c[3], 0):
+                if kind(c) == "bin" and c[1] == "==" and ((kind(strip(c[2])) == "var" and strip(c[2])[1] == "length" and is_int(c[3], 0)) or (kind(strip(c[3])) == "var" and strip(c[3])[1] == "length" and is_int(c[2], 0))):
                     for e, _k in __import__("h4rules.rules_loops", fromlist=["seq_of"]).seq_of(nd[2]):
                         for x in walk(e, True):
                             if x[0] == "asg" and x[1] == "=" and kind(strip(x[2])) == "var" and strip(x[2])[1] == "length":
